@@ -238,6 +238,12 @@ theorem TrotterThirdOrder_two_terms (A B : Matrix n n ℂ) (dt : ℂ) (hdt : ‖
     rw [← hB]; simp only [mul_assoc]
   simpa [e] using h
 
+/-- registered name of `TrotterThirdOrder_two_terms`. -/
+theorem T16_strang_third_order (A B : Matrix n n ℂ) (dt : ℂ) (hdt : ‖dt‖ ≤ 1) :
+    ‖mprop (dt / 2) A * mprop dt B * mprop (dt / 2) A - mprop dt (A + B)‖
+      ≤ 2 * rem3 (‖A‖ + ‖B‖) * ‖dt‖ ^ 3 :=
+  TrotterThirdOrder_two_terms A B dt hdt
+
 end matrix
 
 /-- **`TrotterThirdOrder` (kept as a `def` in part 2) holds**: for every list of complex
